@@ -662,6 +662,58 @@ def gen_dist(rng, tier):
     return chunk("dist", ops, 100)
 
 
+def gen_dist_options(rng, tier):
+    """audit round 2: distributions built with non-default constructor options, which the
+    description language is asked to carry too — a FIXED offset of a Gamma (`Gf`), the
+    discretisation scheme of a Beta (`Bi` equal intervals, `Bp` equal probabilities), class values
+    that are medians (`Md <dist>`); and (`dist.rtp`) parameters / class values the fixed notation
+    of the writer cannot carry (more decimals than are written, magnitudes below the last decimal)"""
+    ops = []
+    for n in range(1, 9):
+        ops.append("dist.rt 6 Gf %d %s %s %s" % (n, dh(2), dh(0.5), dh(0.75)))
+        ops.append("dist.rt 6 Bi %d %s %s" % (n, dh(1.5), dh(2)))
+        ops.append("dist.rt 6 Bp %d %s %s" % (n, dh(1.5), dh(2)))
+        ops.append("dist.rt 6 Md E %d %s" % (n, dh(2)))
+        ops.append("dist.rt 6 Md T %d %s %s" % (n, dh(1), dh(5)))
+        ops.append("dist.rt 6 Md G %d %s %s" % (n, dh(0.5), dh(1.25)))
+    k = 600 if tier == "thorough" else 80
+    for _ in range(k):
+        r = rng.random()
+        n = rng.randint(1, 8)
+        if r < 0.3:
+            toks = ["Gf", str(n), dh(short_dec(rng, 0.5, 6, 3)), dh(short_dec(rng, 0.5, 6, 3)), dh(short_dec(rng, 0.1, 3, 3))]
+        elif r < 0.55:
+            toks = [rng.choice(["Bi", "Bp"]), str(n), dh(short_dec(rng, 0.5, 5, 3)), dh(short_dec(rng, 0.5, 5, 3))]
+        elif r < 0.85:
+            toks = ["Md"] + gen_dist_tree(rng, 0, 3)
+        else:
+            toks = ["I", dh(0.25), "Md"] + gen_dist_tree(rng, 0, 3, True, True)
+        ops.append("dist.rt 6 " + " ".join(toks))
+    # what the text cannot carry
+    m = 400 if tier == "thorough" else 60
+    for _ in range(m):
+        r = rng.random()
+        prec = rng.choice([6, 6, 8])
+        if r < 0.35:                                   # Simple: values with many decimals / tiny / huge
+            kk = rng.randint(1, 5)
+            vals = sorted(set(rng.choice([rng.uniform(0, 1e-5), rng.uniform(0, 10), rng.uniform(1e3, 1e7)]) for _ in range(kk)))
+            toks = ["S", str(len(vals))] + [dh(v) for v in vals] + [dh(p) for p in dyadic_probs(rng, len(vals))]
+        elif r < 0.55:                                 # probabilities that are not short decimals
+            kk = rng.randint(2, 4)
+            w = [rng.random() + 0.05 for _ in range(kk)]
+            tot = sum(w); pr = [x / tot for x in w]
+            pr[-1] = 1.0 - sum(pr[:-1])
+            toks = ["S", str(kk)] + [dh(i + 0.5) for i in range(kk)] + [dh(p) for p in pr]
+        elif r < 0.75:                                 # a rate below the 12th decimal
+            toks = ["E", str(rng.randint(1, 8)), dh(rng.uniform(1e-15, 1e-12))]
+        elif r < 0.9:
+            toks = ["C", dh(rng.choice([1, -1]) * rng.uniform(1e-16, 1e-13))]
+        else:
+            toks = ["U", str(rng.randint(1, 6)), dh(rng.uniform(0, 1e-7)), dh(rng.uniform(2e-7, 1e-6))]
+        ops.append("dist.rtp %d %s" % (prec, " ".join(toks)))
+    return chunk("distopt", ops, 50)
+
+
 # ------------------------------------------------------------------ number formatting (round 2)
 def gen_numfmt(rng, tier):
     """toString(d, precision) for every precision 0..20: doubles by bit pattern, short decimals
@@ -717,6 +769,8 @@ def generate(seed, tier):
     cases += gen_table(rng2, tier)
     cases += gen_dist(rng2, tier)
     cases += gen_numfmt(rng2, tier)
+    rng3 = random.Random(seed * 104729 + 31)        # audit round 2 streams: the earlier ones are unchanged
+    cases += gen_dist_options(rng3, tier)
     return cases
 
 
@@ -756,7 +810,7 @@ def compare(op_line, impl, model):
         if len(a) != 2 or len(b) != 2:
             return False
         return (b[0] == "*" or a[0] == b[0]) and a[1] == b[1]     # the text is modelled; the double read back at 17 digits
-    if op == "dist.rt":
+    if op in ("dist.rt", "dist.rtp"):
         return True                               # explored: the model has no answer of its own ("?")
     return " ".join(impl.split()) == " ".join(model.split())
 
